@@ -192,6 +192,155 @@ theorem buildReader_absent (binary : Bool) (props : List (Bytes × SType)) (r : 
       exact fallback_none _ k (hk3 h4.2) hoff _
     · rfl
 
+/-! ## the IgnorableW fallback with the fourth name PRESENT, later in the header, with another type -/
+
+theorem scanComponent_inv (t : SType) (pname : Bytes) (pty : SType) (s : Scan) (k' : Nat) (cname : Bytes) (k : Nat)
+    (hty : s.ty = some t) (hoff : s.offs[k]? = some none) (hmis : k' = k → cname = pname → pty ≠ t) :
+    (scanComponent pname pty false s k' cname).ty = some t ∧
+      (scanComponent pname pty false s k' cname).offs[k]? = some none := by
+  simp only [scanComponent]
+  split
+  · exact ⟨hty, hoff⟩
+  · rename_i hne
+    have hc : cname = pname := by simp at hne; exact hne.symm
+    simp only [Bool.false_eq_true, if_false, hty]
+    refine ⟨by first | trivial | rfl, ?_⟩
+    by_cases hkk : k' = k
+    · subst hkk
+      have hp := hmis rfl hc
+      have hlt : k' < s.offs.length := by
+        rcases Nat.lt_or_ge k' s.offs.length with h | h
+        · exact h
+        · rw [List.getElem?_eq_none h] at hoff; simp at hoff
+      have hne' : ¬ (some t = some pty) := by simp; exact fun e => hp e.symm
+      simp [hne', List.getElem?_set_self hlt]
+    · rw [List.getElem?_set_ne hkk]; exact hoff
+
+theorem scanInner_inv (t : SType) (pname : Bytes) (pty : SType) (k : Nat) :
+    ∀ (l : List (Bytes × Nat)) (s : Scan), s.ty = some t → s.offs[k]? = some none →
+      (∀ x ∈ l, x.2 = k → x.1 = pname → pty ≠ t) →
+      (scanInner pname pty (fun _ => false) l s).ty = some t ∧
+        (scanInner pname pty (fun _ => false) l s).offs[k]? = some none := by
+  intro l
+  induction l with
+  | nil => intro s h1 h2 _; exact ⟨h1, h2⟩
+  | cons x l ih =>
+    intro s h1 h2 h
+    simp only [scanInner, List.foldl_cons] at ih ⊢
+    obtain ⟨a, b⟩ := scanComponent_inv t pname pty s x.2 x.1 k h1 h2 (h x (by simp))
+    exact ih _ a b (fun y hy => h y (by simp [hy]))
+
+theorem scanProp_inv (binary : Bool) (names : List Bytes) (t : SType) (k : Nat) (hk : k < names.length) (s : Scan)
+    (p : Bytes × SType) (h1 : s.ty = some t) (h2 : s.offs[k]? = some none) (hmis : p.1 = names[k] → p.2 ≠ t) :
+    (scanProp binary names s p).ty = some t ∧ (scanProp binary names s p).offs[k]? = some none := by
+  rw [scanProp_eq]
+  have := scanInner_inv t p.1 p.2 k names.zipIdx s h1 h2 (by
+    intro x hx hxk hxn
+    obtain ⟨c, i⟩ := x
+    have hm := List.mem_zipIdx_iff_getElem?.mp hx
+    simp only at hxk hxn
+    subst hxk
+    rw [List.getElem?_eq_getElem hk] at hm
+    simp at hm
+    exact hmis (by rw [← hxn, hm]))
+  exact this
+
+theorem scan_inv (binary : Bool) (names : List Bytes) (t : SType) (k : Nat) (hk : k < names.length) :
+    ∀ (ps : List (Bytes × SType)) (s : Scan), s.ty = some t → s.offs[k]? = some none →
+      (∀ p ∈ ps, p.1 = names[k] → p.2 ≠ t) →
+      (ps.foldl (scanProp binary names) s).ty = some t ∧ (ps.foldl (scanProp binary names) s).offs[k]? = some none := by
+  intro ps
+  induction ps with
+  | nil => intro s h1 h2 _; exact ⟨h1, h2⟩
+  | cons p ps ih =>
+    intro s h1 h2 h
+    simp only [List.foldl_cons]
+    obtain ⟨a, b⟩ := scanProp_inv binary names t k hk s p h1 h2 (h p (by simp))
+    exact ih _ a b (fun q hq => h q (by simp [hq]))
+
+theorem offs_four' (l : List (Option Nat)) (hl : l.length = 4)
+    (h0 : ∃ a, l[0]? = some (some a)) (h1 : ∃ a, l[1]? = some (some a)) (h2 : ∃ a, l[2]? = some (some a))
+    (h3 : l[3]? = some none) : ∃ a b c, l = [some a, some b, some c, none] := by
+  obtain ⟨a, h0⟩ := h0
+  obtain ⟨b, h1⟩ := h1
+  obtain ⟨c, h2⟩ := h2
+  exact ⟨a, b, c, offs_four l hl a b c h0 h1 h2 h3⟩
+
+/-- THE IGNORABLE-W FALLBACK, fourth name present: the header is `pre ++ post`, the first three names sit in `pre` with one
+type `t`, the fourth name sits in `post` with ANOTHER type — the 4-vector scan takes its type from the first member it
+meets (`t`), finds the fourth "mixed", and `build*` falls back to the 3-vector reader over the first three names -/
+theorem buildReader_fallback_mixed (binary : Bool) (pre post : List (Bytes × SType)) (r : RProp)
+    (hlen : r.names.length = 4) (hign : r.ignorableW = true) (hn : r.names.Nodup)
+    (hnd : ((pre ++ post).map (·.1)).Nodup) (t t' : SType) (htt : t' ≠ t)
+    (hpre : ∀ k (hk : k < 3), (r.names[k]'(by omega), t) ∈ pre) (hpost : (r.names[3]'(by omega), t') ∈ post)
+    (idx : List Nat) (hl : idx.length = 3)
+    (hidx : ∀ k (hk : k < 3), ∃ hi : idx[k]'(by omega) < (pre ++ post).length,
+      (pre ++ post)[idx[k]'(by omega)] = (r.names[k]'(by omega), t)) :
+    buildReader binary (pre ++ post) r
+      = some ⟨r.attr, r.names.take 3, idx.map (locOf binary (pre ++ post)), some t⟩ := by
+  have hnd' := hnd
+  rw [List.map_append, List.nodup_append] at hnd'
+  obtain ⟨hndpre, hndpost, hdis⟩ := hnd'
+  have hdis' : ∀ p ∈ pre, ∀ q ∈ post, p.1 ≠ q.1 := fun p hp q hq =>
+    hdis p.1 (List.mem_map_of_mem hp) q.1 (List.mem_map_of_mem hq)
+  -- scan of `pre`: uniform type t
+  have huni : ∀ p ∈ pre, p.1 ∈ r.names → p.2 = t := by
+    intro p hp hm
+    obtain ⟨k, hk, hke⟩ := List.getElem_of_mem hm
+    by_cases hk3 : k = 3
+    · subst hk3
+      exact absurd hke.symm (hdis' p hp _ hpost)
+    · have := eq_of_fst_eq_of_nodup pre hndpre p _ hp (hpre k (by omega)) hke.symm
+      rw [this]
+  obtain ⟨_, hlen1, h3, h4, _⟩ := scan_fold binary r.names hn t pre ⟨r.names.map (fun _ => none), none, 0⟩ hndpre huni
+    (.inl rfl) (by simp)
+  have hty1 : (pre.foldl (scanProp binary r.names) ⟨r.names.map (fun _ => none), none, 0⟩).ty = some t :=
+    h4 ⟨_, hpre 0 (by omega), List.getElem_mem _⟩
+  have hoff1 : ∀ k (hk : k < 3), ∃ a, (pre.foldl (scanProp binary r.names) ⟨r.names.map (fun _ => none), none, 0⟩).offs[k]?
+      = some (some a) := by
+    intro k hk
+    obtain ⟨i, hi, hie⟩ := List.getElem_of_mem (hpre k hk)
+    exact ⟨_, (h3 k (by omega)).1 i hi (by rw [hie])⟩
+  have hoff13 : (pre.foldl (scanProp binary r.names) ⟨r.names.map (fun _ => none), none, 0⟩).offs[3]? = some none := by
+    have := (h3 3 (by omega)).2 (fun p hp e => hdis' p hp _ hpost e)
+    simpa [List.getElem?_map, List.getElem?_eq_getElem (show 3 < r.names.length by omega)] using this
+  -- scan of `post`
+  have hs : (pre ++ post).foldl (scanProp binary r.names) ⟨r.names.map (fun _ => none), none, 0⟩
+      = post.foldl (scanProp binary r.names) (pre.foldl (scanProp binary r.names) ⟨r.names.map (fun _ => none), none, 0⟩) :=
+    List.foldl_append
+  have hoff2 : ∀ k (hk : k < 3), ∃ a, ((pre ++ post).foldl (scanProp binary r.names)
+      ⟨r.names.map (fun _ => none), none, 0⟩).offs[k]? = some (some a) := by
+    intro k hk
+    obtain ⟨a, ha⟩ := hoff1 k hk
+    refine ⟨a, ?_⟩
+    rw [hs, scan_absent binary r.names k (by omega) post _ (fun q hq e => hdis' _ (hpre k hk) q hq e.symm)]
+    exact ha
+  have hoff23 : ((pre ++ post).foldl (scanProp binary r.names) ⟨r.names.map (fun _ => none), none, 0⟩).offs[3]? = some none := by
+    rw [hs]
+    refine (scan_inv binary r.names t 3 (by omega) post _ hty1 hoff13 ?_).2
+    intro q hq e
+    have := eq_of_fst_eq_of_nodup post hndpost q _ hq hpost e
+    rw [this]; exact htt
+  have hlen2 : ((pre ++ post).foldl (scanProp binary r.names) ⟨r.names.map (fun _ => none), none, 0⟩).offs.length = 4 := by
+    rw [scan_len]; simp [hlen]
+  obtain ⟨a, b, c, hform⟩ := offs_four' _ hlen2 (hoff2 0 (by omega)) (hoff2 1 (by omega)) (hoff2 2 (by omega)) hoff23
+  have hnone : buildVec binary (pre ++ post) r.attr r.names = none := by
+    simp only [buildVec, allSome_none _ 3 hoff23]
+  -- the 3-vector reader
+  have hn3 : (r.names.take 3).Nodup := List.Nodup.sublist (List.take_sublist _ _) hn
+  have hb3 := buildVec_spec binary (pre ++ post) r.attr (r.names.take 3) hn3
+    (by intro h; have := congrArg List.length h; simp [hlen] at this) hnd t idx (by simp [hl, hlen])
+    (fun k hk => by
+      have hk3 : k < 3 := by simp [hlen] at hk; omega
+      obtain ⟨hi, hpe⟩ := hidx k hk3
+      exact ⟨hi, by rw [hpe]; simp⟩)
+  obtain ⟨attr, names, ign⟩ := r
+  simp only at hlen hign hnone hform hb3 ⊢
+  match names, hlen with
+  | [n0, n1, n2, n3], _ =>
+    simp only [buildReader, hnone, hign, hform]
+    simpa using hb3
+
 /-! ## one default reader on the written header: built exactly as predicted (binary offsets / ASCII columns) -/
 
 /-- the decoding type a built reader carries: the writer's type — except for the ASCII scalar reader, which never
